@@ -1,0 +1,27 @@
+//go:build verif
+
+package client
+
+// Machine-checked contracts for the client load balancers (property C22).
+// Comment-only file: it adds no code to the package. Read by /verif/govc.
+
+//@ property C22
+
+// rr_slot is the abstraction function of the round-robin cursor: the index
+// the next call will pick.
+//@ spec func rr_slot(next uint32, n int) int = int(next) % n
+
+//@ func (*RoundRobin).Next(x)
+//@   arith bv
+//@   requires len(x.nodes) > 0
+//@   requires len(x.nodes) <= 1<<32
+//@   ensures picks-configured-node: exists i int :: 0 <= i && i < len(x.nodes) && result == x.nodes[i]
+//@   ensures picks-current-slot: result == old(x.nodes[rr_slot(x.next, len(x.nodes))])
+//@   ensures cyclic-order: rr_slot(x.next, len(x.nodes)) == (rr_slot(old(x.next), len(x.nodes)) + 1) % len(x.nodes)
+//@   ensures slot-in-range: 0 <= rr_slot(x.next, len(x.nodes)) && rr_slot(x.next, len(x.nodes)) < len(x.nodes)
+//@   modifies RoundRobin.next
+
+//@ func (*RoundRobin).Set(x, nodes)
+//@   arith bv
+//@   ensures len(x.nodes) == len(nodes) && forall i int :: 0 <= i && i < len(nodes) ==> x.nodes[i] == nodes[i]
+//@   modifies RoundRobin.nodes
